@@ -16,6 +16,7 @@
 //!       emits   : `~` | comma list of hex strings the sink received during the call
 //!       handler : `~` | comma list of inv | io:<k>:<tok>
 //!   std <ctor> <prefixhex> <keyhex> <value> => <hex>
+//!   raw <texthex> <sink> <s|c> => <result>/<emits>/<handler>      MetricBackend::send_metric / consume_error
 //!   val <variant> <value> => <hex of format!("{}", MetricValue)> | panic
 //!
 //! f64 text is produced here with `format!("{}", x)`, independently of cadence.
@@ -361,6 +362,53 @@ fn run_std(ctor: &str, prefix: &str, key: &str, valt: &str) -> String {
     }
 }
 
+/// `MetricBackend::send_metric` / `consume_error` used directly, as an extension crate would with its
+/// own `Metric` type:  raw <prefix> <texthex> <sink> <mode: s (send_metric) | c (consume an invalid-input error)>
+struct RawMetric(String);
+impl Metric for RawMetric {
+    fn as_metric_str(&self) -> &str {
+        &self.0
+    }
+}
+
+fn run_raw(texth: &str, sinkt: &str, mode: &str) -> String {
+    use cadence::ext::MetricBackend;
+    let sink = Arc::new(Mutex::new(SinkState::default()));
+    let handled: Arc<Mutex<Vec<String>>> = Arc::new(Mutex::new(Vec::new()));
+    let h2 = handled.clone();
+    let client = StatsdClient::builder("ignored.prefix", ScriptedSink(sink.clone()))
+        .with_tag("ignored", "tag")
+        .with_error_handler(move |e| h2.lock().unwrap().push(merr_repr(&e)))
+        .build();
+    {
+        let mut s = sink.lock().unwrap();
+        s.script.push_back(if sinkt == "a" {
+            Ans::Accept
+        } else if let Some(n) = sinkt.strip_prefix('b') {
+            Ans::AcceptReporting(n.parse().unwrap_or(0))
+        } else {
+            Ans::Refuse(sinkt[1..].parse().unwrap_or(15))
+        });
+        s.tok = 1;
+    }
+    let m = RawMetric(s_of(texth));
+    let res = catch_unwind(AssertUnwindSafe(|| {
+        if mode == "c" {
+            client.consume_error(MetricError::from((cadence::ErrorKind::InvalidInput, "custom")));
+            "unit".to_string()
+        } else {
+            match client.send_metric(&m) {
+                Ok(()) => "ok".to_string(),
+                Err(e) => merr_repr(&e),
+            }
+        }
+    }))
+    .unwrap_or_else(|_| "panic".to_string());
+    let em: Vec<String> = sink.lock().unwrap().received.iter().map(|m| hex(m.as_bytes())).collect();
+    let hd = handled.lock().unwrap().clone();
+    format!("{}/{}/{}", res, list_or(&em, "~"), list_or(&hd, "~"))
+}
+
 /// `impl Display for MetricValue` (public through `cadence::ext`), every variant, empty lists included
 fn run_val(variant: &str, valt: &str) -> String {
     use cadence::ext::MetricValue;
@@ -389,6 +437,7 @@ fn run_line(line: &str) -> Option<String> {
         "fmt" if f.len() == 5 => Some(format!("{} => {}", line, run_fmt(f[1], f[2], f[3], f[4]))),
         "std" if f.len() == 5 => Some(format!("{} => {}", line, run_std(f[1], f[2], f[3], f[4]))),
         "val" if f.len() == 3 => Some(format!("{} => {}", line, run_val(f[1], f[2]))),
+        "raw" if f.len() == 4 => Some(format!("{} => {}", line, run_raw(f[1], f[2], f[3]))),
         _ => Some(format!("{} => malformed", line)),
     }
 }
@@ -776,6 +825,15 @@ fn main() {
     sequences(&mut out, &mut rng, nseq, false, &mut count);
     sequences(&mut out, &mut rng, nseq / 4, true, &mut count);
     std_cases(&mut out, &mut rng, nstd, &mut count);
+    for i in 0..(nstd / 6) {
+        let text = if i % 3 == 0 { gen_str(&mut rng, true) } else { format!("custom.metric:{}|x|#{}", gen_u64(&mut rng), gen_str(&mut rng, false)) };
+        let sink = gen_sink(&mut rng, 30);
+        let mode = if i % 5 == 4 { "c" } else { "s" };
+        if let Some(l) = run_line(&format!("raw {} {} {}", h(&text), sink, mode)) {
+            writeln!(out, "{}", l).unwrap();
+            count += 1;
+        }
+    }
     for i in 0..(nstd / 4) {
         let variant = ["signed", "unsigned", "float", "psigned", "punsigned", "pfloat"][i % 6];
         let n = match rng.below(6) {
